@@ -5,24 +5,35 @@ from ..dv import DV, tags_of, DataDependentInt, NONZERO_STEPS
 from ..dvrun import explore, bicomplex_aware
 
 # whole-array predicates (control dependence on more than one element) that are accepted, with the reason.  An entry names
-# the function that contains the test and what kind of test it is - not its source text, so that `np.any(m)` and `m.any()`
-# are the same entry; a test of another kind, or in another function, is reported and has to be read.
+# the kind of test and which library kernel the function that contains it feeds - not its source text or its name, so that
+# `np.any(m)` and `m.any()` are the same entry and a renamed / moved function keeps its entry; a test of another kind, or in a
+# function that uses none of these kernels, is reported and has to be read.
 CONTROL_EXCEPTIONS = {
-    ('step_generators', 'zero-test'): 'basic generators: a whole step row is dropped when any element has a zero step; with '
-                                      'the library default base steps (>= 1.7e-15) and step_nom >= 1 no step is zero, so the '
-                                      'filter is column-uniform; answered "keep" in the runs (limitation recorded in DESIGN.md)',
-    ('limits._Limit._add_error_to_outliers', 'nan-test'): 'only selects nanpercentile vs percentile, which agree on every '
-                                                          'NaN-free column (library model)',
-    ('limits._Limit._get_arg_min', 'nan-test'): 'only gates a warning and a replacement whose mask is per column, so columns '
-                                                'that are not all-NaN are untouched (R-ARGMIN checks exactly that)',
-    ('limits._Limit._add_error_to_outliers', 'dtype-test'): 'dtype only',
-    ('extrapolation.convolve', 'dtype-test'): 'dtype only',
+    ('module step_generators', 'zero-test'): 'basic generators: a whole step row is dropped when any element has a zero step; with '
+                                             'the library default base steps (>= 1.7e-15) and step_nom >= 1 no step is zero, so the '
+                                             'filter is column-uniform; answered "keep" in the runs (limitation recorded in DESIGN.md)',
+    ('percentile', 'nan-test'): 'in the outlier screen (the function that calls np.percentile / nanpercentile): only selects '
+                                'nanpercentile vs percentile, which agree on every NaN-free column (library model)',
+    ('nanargmin', 'nan-test'): 'in the selection of the best estimate (the function that calls np.nanargmin): only gates a warning '
+                               'and a replacement whose mask is per column, so columns that are not all-NaN are untouched '
+                               '(R-ARGMIN checks exactly that)',
+    ('percentile', 'dtype-test'): 'dtype only',
+    ('convolve1d', 'dtype-test'): 'dtype only (the function that applies the Richardson rule with convolve1d)',
 }
+KERNEL_ALIASES = {'nanpercentile': 'percentile'}
 
 
-def control_exception(fn, kind):
-    for (where_fn, k), why in CONTROL_EXCEPTIONS.items():
-        if k == kind and (fn == where_fn or fn.startswith(where_fn + '.')):
+def control_exception(info, kind):
+    """info: Explorer.site_info entry (function, kind, logical shape, names called by the enclosing function)"""
+    fn = info[0] if info else ''
+    calls = {KERNEL_ALIASES.get(c, c) for c in (info[3] if info and len(info) > 3 else ())}
+    for (key, k), why in CONTROL_EXCEPTIONS.items():
+        if k != kind:
+            continue
+        if key.startswith('module '):
+            if fn.split('.')[0] == key.split()[1]:
+                return why
+        elif key in calls:
             return why
     return None
 
@@ -83,10 +94,13 @@ def argmin_table(ctx):
     from .c18 import NaNV
     rep = ctx.rep
     lim = ctx.repo.module('limits')
-    ci = lim.classes.get('_Limit')
-    if ci is None or ci.lookup('_get_arg_min') is None:
-        raise AnalysisError('anchor vanished: limits._Limit._get_arg_min')
-    where = lim.where(ci.lookup('_get_arg_min')[1])
+    from ..srcmodel import functions_calling
+    cands = functions_calling(lim, ('nanargmin',))
+    if len(cands) != 1:
+        raise AnalysisError('anchor vanished: the function of limits.py that selects the best estimate with np.nanargmin '
+                            '(candidates: %s)' % [c[0] for c in cands])
+    qual, node, owner = cands[0]
+    where = lim.where(node)
     seen = []
 
     def grab(models, a, axis=None, **kw):
@@ -99,15 +113,15 @@ def argmin_table(ctx):
     nan = NaNV()
     table = Arr((3, 2), [nan, nan, nan, e1, nan, e2])          # column 0 has no valid estimate, column 1 has two
     try:
-        I.getattr(I.get_global('limits', '_Limit'), '_get_arg_min')(table)
+        I.closure_for(lim, node, owner)(table)
     except _Stop:
         pass
     except InterpRaise as exc:
-        rep.violation('R-ARGMIN', 'limits._Limit._get_arg_min', where, {'raises': exc.exc_name, 'message': exc.msg[:100]},
+        rep.violation('R-ARGMIN', qual, where, {'raises': exc.exc_name, 'message': exc.msg[:100]},
                       'a selection', 'one all-NaN column, one mixed column', key='argmin raises')
         return
     if not seen:
-        rep.undecided('R-ARGMIN', 'limits._Limit._get_arg_min', 'no nanargmin / nanmin call seen', 'one all-NaN column, one mixed column')
+        rep.undecided('R-ARGMIN', qual, 'no nanargmin / nanmin call seen', 'one all-NaN column, one mixed column')
         return
     t = seen[0]
     problems = []
@@ -119,7 +133,7 @@ def argmin_table(ctx):
             problems.append('the NaN estimate of the mixed column became %r: it can now be selected' % (col1[0],))
         if repr(col1[1]) != repr(e1) or repr(col1[2]) != repr(e2):
             problems.append('valid estimates of the mixed column changed: %r' % (col1[1:],))
-    rep.check(not problems, 'R-ARGMIN', 'limits._Limit._get_arg_min', where,
+    rep.check(not problems, 'R-ARGMIN', qual, where,
               {'table_handed_to_the_selection': [repr(v) for v in t.items()], 'problems': problems[:2]},
               'NaN stays NaN in columns that have valid estimates', 'one all-NaN column, one mixed column', key='argmin table')
 
@@ -224,8 +238,9 @@ def one(ctx, core, shape, method, n, order, full_output, rule_as=None):
     # control dependence
     for (text, where_p), tags in ex.control_predicates().items():
         cols = {t for t in tags if t[0] == 'x'}
-        fn_q, kind = ex.site_info.get((text, where_p), ('', 'other'))[:2]
-        if len(cols) > 1 and control_exception(fn_q, kind) is None:
+        info = ex.site_info.get((text, where_p), ('', 'other'))
+        fn_q, kind = info[:2]
+        if len(cols) > 1 and control_exception(info, kind) is None:
             rep.violation(rid('R-COLSEP'), construct, where_p, {'predicate': text, 'in_function': fn_q, 'kind': kind,
                                                                 'depends_on_elements': len(cols)},
                           'no whole-array predicate steers the computation (tabled exceptions: %s)'
